@@ -668,6 +668,8 @@ class Node:
 
         if before is True:
             before = 0  # prepend
+        elif before is False:
+            before = None  # append (note that `False` is also an `int`)
 
         children = self._children
         if children is None:
@@ -782,6 +784,8 @@ class Node:
 
         if before is True:
             before = 0  # prepend
+        elif before is False:
+            before = None  # append (note that `False` is also an `int`)
 
         # Validate `before` first: we must not detach the node and then fail
         if isinstance(before, Node) and (
